@@ -287,8 +287,20 @@ def case_ref(ctx, rng):
 
 # ------------------------------------------------------------------------------------------ fall time
 def fall_pulse(rng, c: dict, d: int) -> dict:
-    mode = gen.wchoice(rng, {"plain": 5, "no-amp": 3, "small-amp": 1})
+    mode = gen.wchoice(rng, {"plain": 5, "no-amp": 3, "small-amp": 1, "asym-amp": 2 if d >= 2 else 0})
     p = gen.gen_pulse(rng, c, d=d, arb=0, pps_p=0)
+    if mode == "asym-amp":
+        # amplitude that starts near zero and is cut at a high value, or the reverse: its buffers before and after
+        # the pulse differ, and only the one after matters for the fall time
+        A = gen.r6(AMAX * gen.pick(rng, [0.02, 0.1, 0.5, 1.0]))
+        lo_, hi_ = (0.0, A) if rng.random() < 0.7 else (A, 0.0)
+        p["amp"] = gen.pick(rng, [{"k": "ramp", "d": d, "a": lo_, "b": hi_},
+                                  {"k": "interp", "d": d, "values": [lo_, (lo_ + hi_) / 4, hi_]} if d >= 3 else
+                                  {"k": "ramp", "d": d, "a": lo_, "b": hi_},
+                                  {"k": "custom", "samples": [gen.r6(lo_ + (hi_ - lo_) * (i / (d - 1)) ** 2) for i in range(d)]}])
+        p["det"] = {"k": "const", "d": d, "v": gen.pick(rng, [0.0, 0.0, 1.0])}
+        p["phase"] = 0.0
+        return p
     if mode != "plain" and d >= 2 and rng.random() < 0.3:
         # two-level detuning of alternating sign (the DESIGN's alternating-sign inputs, as a real waveform)
         d1 = rng.randint(1, d - 1)
